@@ -532,7 +532,13 @@ func (t *seqTransport) RoundTrip(req *http.Request) (*http.Response, error) {
 	return resp, err
 }
 
-func runTLS(c *harness.Ctx) harness.Result {
+// RunTLS is also run by C20 in the race build (Free: no forced completion order).
+func RunTLS(c *harness.Ctx) harness.Result { return runTLS(c, false) }
+
+// RunTLSFree lets both fetches run freely against each other.
+func RunTLSFree(c *harness.Ctx) harness.Result { return runTLS(c, true) }
+
+func runTLS(c *harness.Ctx, free bool) harness.Result {
 	r := c.Rng
 	drv.IsolateEnv(c.Tmp)
 	mk := func(v int64) (*httptest.Server, *profile.Profile) {
@@ -577,6 +583,10 @@ func runTLS(c *harness.Ctx) harness.Result {
 	}
 	st := &seqTransport{inner: transport.New(flags), firstHost: first, firstDone: make(chan struct{})}
 	s := &drv.Session{Flags: flags, RoundTr: st}
+	if free {
+		s.RoundTr = st.inner
+		desc = fmt.Sprintf("sources %v fetched concurrently", []string{"https+insecure://A", "https://B (self-signed)"})
+	}
 	rr := s.Run()
 	st.once.Do(func() { close(st.firstDone) })
 	c.Stat("tls_sessions", 1)
@@ -657,7 +667,7 @@ func init() {
 		Rule: "source lists of 1,2,3,5,127,128,129,256,257,300 sources (cycled) with optional 1/2/130 bases; 30% of the profiles have another set or order of sample types ([v n], [v], [x v] instead of [n v]) so that only v is common; failing subset in {none, one, first, last, all-but-one, a whole 128-chunk, all, random} x failure kind per source in {Fetcher error, structurally invalid profile, missing file, HTTP 404, HTTP 500, garbage body, gzip stream cut short}; every fetch blocks at a gate; the controller collects the fetches that have arrived (all outstanding ones, or what is there once no new one arrives for 60 ms - it assumes nothing about pprof's batch size) and releases them one by one in a seed-chosen permutation, each after the previous one completed (completion order inside every batch forced exactly; arrival/release/completion events recorded); every listed source must be asked for exactly once; 3-6 different completion orders per case. " +
 			"part tls: pprof's own transport against two loopback TLS servers with self-signed certificates, one listed as https+insecure:// and one as https://, answered in a forced order: the https source must fail with one error line and the report be that of the other source alone. A case that does not finish within 2 min in 3 of 3 fresh processes is a hang (violation). oracle: fails iff no source (or, with bases, no base) succeeded; exactly one UI error line per failed source naming it and none for good ones; byte-identical -traces across completion orders; -traces equal to the run listing only the successful sources; -top equal to the entry-wise signed sum of the successful profiles' reference reports. non-trivial = at least 2 sources; distinct = run description; distinct_observed = distinct release-order prefixes",
 		Assumptions:   []string{"failing subsets and kinds are enumerated per list shape; completion orders are sampled (3-6 of n! per chunk)"},
-		Parts:         []harness.Part{{Name: "fetch", Quick: 400, Thor: 12000, Run: run}, {Name: "tls", Quick: 8, Thor: 200, Run: runTLS}},
+		Parts:         []harness.Part{{Name: "fetch", Quick: 400, Thor: 12000, Run: run}, {Name: "tls", Quick: 8, Thor: 200, Run: RunTLS}},
 		CaseTimeout:   2 * time.Minute,
 		HangTries:     3,
 		MinNonTrivial: func(string) int { return 100 },
